@@ -259,6 +259,24 @@ class C16(spec.Spec):
                 texts["tempfile-binary-wrapper"] = tf.read()
         except Exception as e:
             out.violation("serialize-raises", "%s:tempfile-binary-wrapper:%s" % (base, type(e).__name__), {"error": repr(e)}, hh)
+        # file names near the file system's limit of 255 BYTES: 80 three-byte characters, and 245 ASCII letters
+        for label, stem in (("long-multibyte-name", "\u6f22" * 80), ("long-ascii-name", "a" * 245)):
+            lp = os.path.join(tmp, stem + "." + base)
+            try:
+                with open(lp, "wb"):
+                    pass
+                os.unlink(lp)
+            except OSError:
+                out.filters["file-system-refuses-" + label] += 1
+                continue
+            try:
+                self.ser(doc, fmt, lp)
+                with open(lp, "rb") as f:
+                    texts["path:" + label] = f.read()
+                os.unlink(lp)
+            except Exception as e:
+                out.violation("serialize-raises", "%s:path:%s:%s" % (base, label, type(e).__name__), {"error": repr(e)[:200]}, hh)
+            out.transitions += 1
         # one relative file name written from two working directories
         cwd = os.getcwd()
         try:
@@ -297,7 +315,8 @@ class C16(spec.Spec):
             for k in ("StringIO", "gb18030-text-file", "tempfile-text-wrapper"):
                 if k in texts and texts[k] != ref:
                     out.violation("destinations-disagree", "%s:%s" % (fmt, k), {"a": ref[:300], "b": texts[k][:300]}, hh)
-            for k in ("BytesIO", "path", "tempfile-binary-wrapper", "relative-path-from-wd1", "relative-path-from-wd2", "codecs-writer"):
+            for k in ("BytesIO", "path", "tempfile-binary-wrapper", "relative-path-from-wd1", "relative-path-from-wd2", "codecs-writer",
+                      "path:long-multibyte-name", "path:long-ascii-name"):
                 if k not in texts:
                     continue
                 try:
